@@ -84,12 +84,14 @@ REGISTRY["C15"] = dict(level="other", theorems=_c15.THEOREMS, custom=_c15.run)
 
 REGISTRY["C01"]["theorems"] += S("C01", "C01_push_back", "C01_push_front", "C01_try_push_back", "C01_try_push_front",
                                   "C01_pop_back", "C01_pop_front", "C01_swap", "C01_swap_remove_back",
-                                  "C01_swap_remove_front", "C01_truncate_back", "C01_truncate_front", "C01_clear")
+                                  "C01_swap_remove_front", "C01_truncate_back", "C01_truncate_front", "C01_clear",
+                                  "C01_remove", "C01_make_contiguous")
+REGISTRY["C05"]["theorems"] += S("C05", "C05_drop_range", "C05_truncate_back", "C05_truncate_front", "C05_clear")
 REGISTRY["C02"]["theorems"] += S("C02", "C02_push_back", "C02_push_front", "C02_try_push_back", "C02_try_push_front")
-REGISTRY["C04"]["theorems"] += S("C04", "C04_push_back", "C04_push_front", "C04_pop_back", "C04_pop_front", "C04_swap_remove_back")
-REGISTRY["C07"]["theorems"] += S("C07", "C07_get", "C07_front", "C07_back", "C07_nth_back")
+REGISTRY["C04"]["theorems"] += S("C04", "C04_push_back", "C04_push_front", "C04_pop_back", "C04_pop_front", "C04_swap_remove_back", "C04_remove")
+REGISTRY["C07"]["theorems"] += S("C07", "C07_get", "C07_front", "C07_back", "C07_nth_back", "C07_make_contiguous")
 REGISTRY["C11"]["theorems"] += S("C11", "C11_swap_ok", "C11_swap_panics_i", "C11_swap_panics_j")
-REGISTRY["C20"]["theorems"] += S("C20", "C20_push_back", "C20_push_front", "C20_pop_back", "C20_pop_front", "C20_swap")
+REGISTRY["C20"]["theorems"] += S("C20", "C20_push_back", "C20_push_front", "C20_pop_back", "C20_pop_front", "C20_swap", "C20_remove", "C20_truncate", "C20_make_contiguous")
 
 # C18: the theorems of C01-C13 are what holds for both builds through the same correspondence
 REGISTRY["C18"]["theorems"] = [t for p in ("C01", "C02", "C03", "C04", "C05", "C06", "C07", "C08", "C09", "C10",
